@@ -63,7 +63,8 @@ class PolarizedRays(RealRays):
         if state.is_polarized:
             E0 = self._get_3d_electric_field(state)
             E1 = self.get_output_field(E0)
-            self.i = np.sum(np.abs(E1)**2, axis=1)
+            # scale the traced intensity (clipping, absorption, coatings)
+            self.i = self.i * np.sum(np.abs(E1)**2, axis=1)
         else:
             # Local x-axis field
             state_x = PolarizationState(is_polarized=True, Ex=1.0, Ey=0.0,
@@ -80,7 +81,7 @@ class PolarizedRays(RealRays):
             # average two orthogonal polarizations to get mean intensity,
             # scale by initial ray intensity
             self.i = (np.sum(np.abs(E1_x)**2, axis=1) +
-                      np.sum(np.abs(E1_y)**2, axis=1)) * self._i0 / 2
+                      np.sum(np.abs(E1_y)**2, axis=1)) * self.i / 2
 
     def update(self, jones_matrix: np.ndarray = None):
         """
